@@ -120,6 +120,8 @@ func init() {
 			Run: func(P *Program, R *Report) { memoPerObjectRule(P, R) }},
 		Rule{ID: "C07.h", Explain: "aliasing discipline: randomisers and commitments held by builders are not overwritten in place (a response is computed into a fresh integer) - no function mutates in place a big.Int it reached through gabi.DisclosureProofBuilder / gabi.CredentialBuilder / gabi.NonRevocationProofBuilder / revocation.ProofCommit (math/big mutators write their receiver), except the tabled merge/refresh functions.",
 			Run: func(P *Program, R *Report) { inPlaceDisciplineRule(P, R, "C07.h", "gabi.DisclosureProofBuilder", "gabi.CredentialBuilder", "gabi.NonRevocationProofBuilder", "revocation.ProofCommit") }},
+		Rule{ID: "C07.i", Explain: "the randomised signature of every proof uses a fresh exponent of full length: Randomize draws r as one uniform LRA-bit value in the call and computes A' = A*S^r, V' = V - E*r from it (a short r makes A' repeat between proofs; same rule as C05.e).",
+			Run: func(P *Program, R *Report) { randomizeRuleAs(P, R, "C07.i") }},
 		Rule{ID: "C07.g", Explain: "the revocation proof commitment draws r2, r3 and the four non-shared randomisers from distinct generator calls with the specified limits (symbolic terms); the shared alpha randomiser comes from the caller.",
 			Run: func(P *Program, R *Report) { revocationRandomizersRule(P, R) }},
 	)
